@@ -77,6 +77,48 @@ Proof.
   induction ks' as [|k r IH]; [reflexivity|]. cbn [map filter mkdiff e_time]. rewrite N.eqb_refl. f_equal. exact IH.
 Qed.
 
+(* ---------------------------------------------------------------- the guard never fires while there is room *)
+Definition ksize (ks : list kind) : N := fold_right (fun k n => EVTBUF_HDR + dsz k + n) 0 ks.
+Definition abytes (a : option N) : N := match a with Some n => 4 + n | None => 0 end.
+(* the argument data leaves room for every event a frame can get: 2 x (all five kinds) *)
+Definition asz_ok (a : option N) : Prop := match a with Some n => n <= 684 | None => True end.
+
+Lemma asz_ok_room a : asz_ok a -> abytes a + 2 * ksize table <= C17_ARGBUF_SIZE.
+Proof. destruct a as [n|]; cbn [asz_ok abytes]; intro H; vm_compute ksize; unfold C17_ARGBUF_SIZE; lia. Qed.
+
+Lemma used_app evs e : used (evs ++ [e]) = used evs + esize e.
+Proof. unfold used. induction evs as [|x r IH]; cbn [app fold_right]; [lia|]. rewrite IH. lia. Qed.
+
+Lemma esize_new C o ts diff evs k e : new_event C o ts diff evs k = Some e -> esize e = EVTBUF_HDR + dsz k.
+Proof.
+  unfold new_event. destruct (reading C o k); [|discriminate].
+  destruct diff; [destruct (find_old evs (id_read k))|]; intro H; inversion H; subst; destruct k; reflexivity.
+Qed.
+
+Lemma str_go_g_room C a o ts diff : forall ks evs, abytes a + used evs + ksize ks <= C17_ARGBUF_SIZE ->
+  str_go_g C a ks o ts diff evs = str_go C ks o ts diff evs.
+Proof.
+  induction ks as [|k r IH]; intros evs H; [reflexivity|]. cbn [str_go_g str_go]. cbn [ksize fold_right] in H.
+  fold (ksize r) in H.
+  assert (F : fits a evs k = true).
+  { unfold fits. fold (abytes a). apply andb_true_iff. split; apply N.leb_le; lia. }
+  rewrite F. destruct (new_event C o ts diff evs k) as [e|] eqn:E.
+  - apply IH. rewrite used_app, (esize_new _ _ _ _ _ _ _ E). lia.
+  - apply IH. lia.
+Qed.
+
+Lemma ksize_filter f ks : ksize (filter f ks) <= ksize ks.
+Proof.
+  induction ks as [|k r IH]; cbn [filter]; [lia|]. destruct (f k); cbn [ksize fold_right]; fold (ksize r);
+    fold (ksize (filter f r)); lia.
+Qed.
+
+Lemma used_reads t o ks : used (map (mkread t o) ks) = ksize ks.
+Proof.
+  induction ks as [|k r IH]; [reflexivity|]. cbn [map used fold_right ksize]. fold (used (map (mkread t o) r)).
+  fold (ksize r). rewrite IH. destruct k; reflexivity.
+Qed.
+
 (* ---------------------------------------------------------------- facts on the flush with an empty queue *)
 Lemma pop_lt_nil ts : pop_lt ts [] = ([], []).
 Proof. reflexivity. Qed.
@@ -149,15 +191,16 @@ Section xplain_run.
 
   (* the extension of a freshly pushed recorded frame *)
   Definition fxnew (a t : N) (o : oval) : fx :=
-    {| x_read := negb (rd a =? 0); x_evs := reads C a t o |}.
+    {| x_read := negb (rd a =? 0); x_evs := reads C a t o;
+       x_asz := match sh with PG => o_asz o | CYG => None end |}.
 
   Lemma kinds_zero : kinds_of 0 = [].
   Proof. reflexivity. Qed.
 
-  Lemma x_enter_in s X d a t o : fc s = fcd d -> enabled s = true -> d < gd -> idx s < ms ->
+  Lemma x_enter_in s X d a t o : fc s = fcd d -> enabled s = true -> d < gd -> idx s < ms -> asz_ok (o_asz o) ->
     x_enter C s X a t o = push X (fxnew a t o).
   Proof.
-    intros Hfc Hen Hd Hi. unfold x_enter.
+    intros Hfc Hen Hd Hi Hasz. unfold x_enter.
     change (xb C) with c.
     rewrite x_first_off.
     destruct (verdict_in s d a Hfc Hd Hi) as (s1 & tr & sv & EC). rewrite EC.
@@ -172,18 +215,27 @@ Section xplain_run.
                                    push (emit X its p') fx0
                               else push X fx0
                          else push (x_watch C (newframe sh a t (ridx s) d) (idx s1) o X)
-                                   (if read_of C a =? 0 then fx0
-                                    else save_trigger_read C (newframe sh a t (ridx s) d) o false fx0))
+                                   (if read_of C a =? 0 then fxa (match shp c with PG => o_asz o | CYG => None end)
+                                    else save_trigger_read C (newframe sh a t (ridx s) d) o false
+                                           (fxa (match shp c with PG => o_asz o | CYG => None end))))
                    = push X (fxnew a t o)).
     { rewrite Hn, Hdi, x_watch_off. f_equal. unfold fxnew. change (read_of C a) with (rd a).
+      change (shp c) with sh.
       destruct (rd a =? 0) eqn:E0.
       - apply N.eqb_eq in E0. cbn [negb]. unfold reads, ekinds. change (read_of C a) with (rd a).
         rewrite E0, kinds_zero. reflexivity.
-      - cbn [negb]. unfold save_trigger_read. cbn [x_evs fx0 newframe f_addr].
+      - cbn [negb]. unfold save_trigger_read. cbn [x_evs x_asz fxa newframe f_addr].
         assert (Hts : ts_of (newframe sh a t (ridx s) d) = t) by reflexivity. rewrite Hts.
-        change (read_of C a) with (rd a). unfold kinds_of. rewrite str_read.
-        rewrite reads_eq, ekinds_eq. reflexivity. }
-    destruct (shp c); exact Same.
+        change (read_of C a) with (rd a). unfold kinds_of.
+        rewrite str_go_g_room.
+        + rewrite str_read. rewrite reads_eq, ekinds_eq. reflexivity.
+        + assert (A : asz_ok (match sh with PG => o_asz o | CYG => None end)).
+          { clear - Hasz. destruct (match sh with PG => o_asz o | CYG => None end) eqn:E; [|exact I].
+            revert E. generalize sh. intros [] E; [rewrite E in Hasz; exact Hasz|discriminate]. }
+          pose proof (asz_ok_room _ A) as R.
+          pose proof (ksize_filter (fun k => negb (N.land (rd a) (kind_bit k) =? 0)) table) as K.
+          cbn [used fold_right]. lia. }
+    revert Same. destruct (shp c); intro Same; exact Same.
   Qed.
 
   Lemma x_enter_out_pg s X d a t o : sh = PG -> fc s = fcd d -> gd <= d -> idx s < ms ->
@@ -239,7 +291,7 @@ Section xplain_run.
   Lemma x_leave_in s X w a t0 o0 r d t1 o1 anc axs dd :
     stack s = nf sh w a t0 r d :: anc -> xs X = fxnew a t0 o0 :: axs -> pend X = [] ->
     fc s = fcd dd -> enabled s = true -> t0 <= t1 -> t1 < 18446744073709551616 -> 0 < t1 ->
-    (ekinds C a = [] \/ t0 < t1) ->
+    (ekinds C a = [] \/ t0 < t1) -> asz_ok (o_asz o0) ->
     x_leave C s X t1 o1 =
     if (thr <? t1 - t0) || w then
       emit (set_xs X axs)
@@ -249,7 +301,7 @@ Section xplain_run.
             ++ map IE (diffs C a t1 o0 o1) ++ [IR {| r_time := t1; r_type := EXIT; r_depth := r; r_addr := a |}]) []
     else set_xs X axs.
   Proof.
-    intros Hst Hxs Hp Hfc Hen Ht Hlt Hpos Hk. unfold x_leave. change (xb C) with c. rewrite Hst, Hxs. cbn [hd tl].
+    intros Hst Hxs Hp Hfc Hen Ht Hlt Hpos Hk Hasz. unfold x_leave. change (xb C) with c. rewrite Hst, Hxs. cbn [hd tl].
     assert (Hg : f_ghost (nf sh w a t0 r d) = false) by (destruct w; reflexivity). rewrite Hg.
     assert (Hnr : norecord (f_flags (nf sh w a t0 r d)) = false) by (destruct w; reflexivity).
     assert (Htop : match shp c with
@@ -270,15 +322,23 @@ Section xplain_run.
     { subst x1. unfold fxnew at 1. cbn [x_read]. destruct (rd a =? 0) eqn:E0; cbn [negb].
       - apply N.eqb_eq in E0. cbn [fxnew x_evs]. unfold reads, diffs, ekinds. change (read_of C a) with (rd a).
         rewrite E0, kinds_zero. reflexivity.
-      - unfold save_trigger_read. cbn [x_evs fxnew].
+      - unfold save_trigger_read. cbn [x_evs x_asz fxnew].
         assert (Hts : ts_of top1 = t1).
         { subst top1. unfold ts_of. cbn [set_end f_end]. assert (E : (t1 =? 0) = false) by (apply N.eqb_neq; lia).
           rewrite E. reflexivity. }
         rewrite Hts.
         assert (Ha : f_addr top1 = a) by (subst top1; destruct w; reflexivity). rewrite Ha.
         change (read_of C a) with (rd a). unfold kinds_of.
-        rewrite reads_eq, diffs_eq, ekinds_eq. change (read_of C a) with (rd a).
-        apply str_diff. }
+        rewrite str_go_g_room.
+        + rewrite reads_eq, diffs_eq, ekinds_eq. change (read_of C a) with (rd a). apply str_diff.
+        + assert (A : asz_ok (match sh with PG => o_asz o0 | CYG => None end)).
+          { clear - Hasz. destruct (match sh with PG => o_asz o0 | CYG => None end) eqn:E; [|exact I].
+            revert E. generalize sh. intros [] E; [rewrite E in Hasz; exact Hasz|discriminate]. }
+          pose proof (asz_ok_room _ A) as R.
+          pose proof (ksize_filter (fun k => negb (N.land (rd a) (kind_bit k) =? 0)) table) as K.
+          rewrite reads_eq, used_reads, ekinds_eq. change (read_of C a) with (rd a).
+          pose proof (ksize_filter (avail (pmu_ok C)) (filter (fun k => negb (N.land (rd a) (kind_bit k) =? 0)) table)) as K2.
+          lia. }
     assert (Htake : take_eq t0 (x_evs x1) = reads C a t0 o0 /\
                     filter (fun e => e_time e =? t1) (x_evs x1) = diffs C a t1 o0 o1).
     { rewrite Hev, reads_eq, diffs_eq. destruct Hk as [Hk|Hk].
@@ -307,15 +367,15 @@ Section xplain_run.
   (* ---------------------------------------------------------------- the induction *)
   Fixpoint xtimed (k : xcall) : Prop :=
     match k with
-    | XCall a t0 _ t1 _ kids =>
-        t0 <= t1 /\ t1 < 18446744073709551616 /\ 0 < t1 /\ (ekinds C a = [] \/ t0 < t1) /\
+    | XCall a t0 o0 t1 _ kids =>
+        t0 <= t1 /\ t1 < 18446744073709551616 /\ 0 < t1 /\ (ekinds C a = [] \/ t0 < t1) /\ asz_ok (o_asz o0) /\
         (fix all (l : list xcall) : Prop := match l with [] => True | k :: r => xtimed k /\ all r end) kids
     end.
   Fixpoint all_xtimed (l : list xcall) : Prop :=
     match l with [] => True | k :: r => xtimed k /\ all_xtimed r end.
 
   Lemma xtimed_kids a t0 o0 t1 o1 kids : xtimed (XCall a t0 o0 t1 o1 kids) -> all_xtimed kids.
-  Proof. cbn. intros (_ & _ & _ & _ & H). induction kids; cbn in *; tauto. Qed.
+  Proof. cbn. intros (_ & _ & _ & _ & _ & H). induction kids; cbn in *; tauto. Qed.
 
   Lemma erase_xrecs : forall k d, erase (xrecs C thr gd d k) = recs thr gd d (strip k).
   Proof.
@@ -421,7 +481,7 @@ Section xplain_run.
   Proof.
     induction k as [a t0 o0 t1 o1 kids IH] using xcall_ind'. intros HT s hk X d Hfc Hen Hr Hh Hp.
     pose proof (xrun_kids kids IH (xtimed_kids _ _ _ _ _ _ HT)) as RK. clear IH.
-    destruct HT as (Ht01 & Ht1 & Hpos & Hk & _).
+    destruct HT as (Ht01 & Ht1 & Hpos & Hk & Hasz & _).
     cbn [strip height] in Hh. fold (heights (map strip kids)) in Hh.
     cbn [xflat]. unfold xexec. cbn [fold_left]. rewrite fold_left_app. cbn [fold_left].
     cbn [xdstep bev dstep].
@@ -476,7 +536,7 @@ Section xplain_run.
       change (xb C) with c.
       pose proof (enter_in thr gd ms sh s d a t0 Hfc Hen Hin Hi) as EI. fold c in EI. rewrite EI.
       pose proof (hooked_in thr gd ms sh s d a Hfc Hin Hi) as HI. fold c in HI. rewrite HI.
-      rewrite (x_enter_in s X d a t0 o0 Hfc Hen Hin Hi).
+      rewrite (x_enter_in s X d a t0 o0 Hfc Hen Hin Hi Hasz).
       set (s1 := {| fc := fcd (d + 1); enabled := true; cached := cached s;
                     stack := newframe sh a t0 (ridx s) d :: stack s; ridx := ridx s + 1; out := out s;
                     warned := false |}).
